@@ -16,7 +16,7 @@ RULE = ('graphs: nodes 0..n-1, entry 0; quick = every digraph with <= 3 nodes (s
         'every 4-node digraph without self loops in which all nodes are reachable (oracle), a seeded sample of '
         'those plus random graphs with 5..40 nodes through coqc; thorough = all 4-node digraphs with self loops and a third '
         '(by seed) of the 5-node loop-free digraphs in canonical form (entry fixed) through the oracle, seeded samples of '
-        'them (4000 + 2000) and 400 random graphs up to 40 nodes through coqc; post-dominator rows go through coqc for '
+        'them (3000 + 1500) and 400 random graphs up to 40 nodes through coqc; post-dominator rows go through coqc for '
         'n <= 12 only (oracle above). '
         'Post dominators: every sink node of the graph as exit. non-trivial = distinct graph with >= 3 nodes, all '
         'reachable, in which at least one node has an immediate dominator different from the entry or a '
@@ -412,7 +412,7 @@ def graph_sets(ctx, deep):
             if s[0] and all_reachable(s) and canonical5(s):
                 five.append(s)
     if deep:     # coqc budget: samples of the big exhaustive families, everything goes to the oracle
-        coq = small + rng.sample(four, min(4000, len(four))) + rng.sample(five, min(2000, len(five))) + rnd
+        coq = small + rng.sample(four, min(3000, len(four))) + rng.sample(five, min(1500, len(five))) + rnd
     else:
         sample = rng.sample(four, min(500, len(four)))
         coq = small + sample + rnd
